@@ -55,6 +55,24 @@ def run_ops(obj, ops):
                 out.append(list(iter(obj)))
             elif o[0] == 'todict':
                 out.append([[k, v] for k, v in obj.to_dict().items()])
+            elif o[0] == 'update_pairs':
+                obj.update([tuple(kv) for kv in o[1]])
+                out.append(None)
+            elif o[0] == 'update_map':
+                obj.update(dict(o[1]))
+                out.append(None)
+            elif o[0] == 'update_kw':
+                obj.update(**{o[1]: o[2]})
+                out.append(None)
+            elif o[0] == 'setdefault':
+                out.append(obj.setdefault(o[1], o[2]))
+            elif o[0] == 'pop':
+                out.append(obj.pop(o[1]))
+            elif o[0] == 'popdefault':
+                out.append(obj.pop(o[1], 'dflt'))
+            elif o[0] == 'clear':
+                obj.clear()
+                out.append(None)
             elif o[0] == 'observe':
                 # operations that only look at the object: whatever they return, what is observed next is unchanged
                 import copy
@@ -141,6 +159,26 @@ def p_history(x):
                 want.append(list(ref))
             elif o[0] == 'todict':
                 want.append([[k, v] for k, v in ref.items()])
+            elif o[0] == 'update_pairs':
+                for k_, v_ in o[1]:
+                    ref[k_.lower()] = v_
+                want.append(None)
+            elif o[0] == 'update_map':
+                for k_, v_ in o[1]:
+                    ref[k_.lower()] = v_
+                want.append(None)
+            elif o[0] == 'update_kw':
+                ref[o[1].lower()] = o[2]
+                want.append(None)
+            elif o[0] == 'setdefault':
+                want.append(ref.setdefault(o[1].lower(), o[2]))
+            elif o[0] == 'pop':
+                want.append(ref.pop(o[1].lower()))
+            elif o[0] == 'popdefault':
+                want.append(ref.pop(o[1].lower(), 'dflt'))
+            elif o[0] == 'clear':
+                ref.clear()
+                want.append(None)
             elif o[0] == 'observe':
                 want.append(None)
         except KeyError:
@@ -289,6 +327,12 @@ def run(ctx):
         ops2 = []
         for o in ops:
             ops2.append(o)
+            if rng.random() < .2:
+                # the other ways of writing into a mapping
+                kk = rng.choice(['Version', 'version', 'Priority', 'X_y', 'depends', 'Depends'])
+                ops2.append(rng.choice([['update_pairs', [[kk, 'p1'], [kk.upper(), 'p2']]], ['update_map', [[kk, 'm1']]], ['update_kw', kk, 'k1'],
+                                        ['setdefault', kk, 'd1'], ['pop', kk], ['popdefault', kk], ['clear']]))
+                ops2.append(rng.choice([['todict'], ['len'], ['iter'], ['in', kk], ['get', kk]]))
             if rng.random() < .3:
                 ops2.append(['observe', rng.choice(OBS)])
                 ops2.append(rng.choice([['todict'], ['len'], ['iter']]))
